@@ -162,10 +162,17 @@ def stdBit : String → Option Nat
   | "xchannel" => some 18 | "mcs" => some 19 | _ => none
 
 structure OState where
-  /-- the writes so far (base map first); `none` = the case has left the specified fragment -/
+  /-- the writes so far (fields of the first present word of the starting header first); `none` = the case has
+      left the specified fragment -/
   ws : Option (List (Nat × Bytes)) := none
   version : Nat := 0
   pad : Nat := 0
+  /-- what the setters do not own: further present words and the bytes after the first word's fields -/
+  frame : Frame := Frame.nil
+  /-- the last present word announces table fields: the bytes after the first word's fields may be re-padded -/
+  live : Bool := false
+  /-- the options payload the implementation reported last (for the clauses that hold in every state) -/
+  pl : Option Bytes := none
 
 def kv (ws : List String) (key : String) : Option String :=
   ws.findSome? (fun w => if w.startsWith (key ++ "=") then some ((w.drop (key.length + 1)).toString) else none)
@@ -183,31 +190,70 @@ def expWith (m : FMap) (b : Nat) (f : Bytes → String) : String :=
   | some v => f v
   | none => "!field_not_present"
 
-/-- the (key, expected value) pairs of a state line -/
-def expectations (m : FMap) : List (String × String) :=
-  let c := canonical S m
-  let tr := match m 1 with
-    | some v => if byteAt v 0 / 16 % 2 == 1 then "4" else "0"
-    | none => "0"
-  [("pl", toHex c), ("pr", toString (presentWord (fieldList S m))), ("hs", toString (4 + c.length)), ("tr", tr),
-   ("tsft", expInt m 0), ("flags", expInt m 1), ("rate", expInt m 2),
-   ("chfreq", expWith m 3 (fun v => toString (slice v 0 2))), ("chtype", expWith m 3 (fun v => toString (slice v 2 2))),
-   ("dbmsig", expInt m 5), ("dbmnoise", expInt m 6), ("sq", expInt m 7), ("ant", expInt m 11), ("dbsig", expInt m 12),
-   ("rxf", expInt m 14), ("txf", expInt m 15), ("dr", expInt m 17),
-   ("xch", expWith m 18 (fun d => s!"{slice d 0 4}/{slice d 4 2}/{slice d 6 1}/{slice d 7 1}")),
-   ("mcs", expWith m 19 (fun d => s!"{slice d 0 1}/{slice d 1 1}/{slice d 2 1}"))]
+/-- (key, field bit, expected value) of the getters -/
+def getterExpectations (m : FMap) : List (String × Nat × String) :=
+  [("tsft", 0, expInt m 0), ("flags", 1, expInt m 1), ("rate", 2, expInt m 2),
+   ("chfreq", 3, expWith m 3 (fun v => toString (slice v 0 2))), ("chtype", 3, expWith m 3 (fun v => toString (slice v 2 2))),
+   ("dbmsig", 5, expInt m 5), ("dbmnoise", 6, expInt m 6), ("sq", 7, expInt m 7), ("ant", 11, expInt m 11),
+   ("dbsig", 12, expInt m 12), ("rxf", 14, expInt m 14), ("txf", 15, expInt m 15), ("dr", 17, expInt m 17),
+   ("xch", 18, expWith m 18 (fun d => s!"{slice d 0 4}/{slice d 4 2}/{slice d 6 1}/{slice d 7 1}")),
+   ("mcs", 19, expWith m 19 (fun d => s!"{slice d 0 1}/{slice d 1 1}/{slice d 2 1}"))]
 
-def checkLine (m : FMap) (out : String) : String :=
+def trailerOfMap (m : FMap) : Nat :=
+  match m 1 with
+  | some v => if byteAt v 0 / 16 % 2 == 1 then 4 else 0
+  | none => 0
+
+/-- the (key, expected value) pairs of a state line of a header whose foreign part `F` is inert: the payload is the
+    well-aligned layout of the last-write map inside the unchanged frame, the table bits of `present()` are the
+    domain of the map, every getter returns the last write or `field_not_present` -/
+def expectations (F : Frame) (m : FMap) : List (String × String) :=
+  let c := layL S F (fieldList S m)
+  [("pl", toHex c), ("hs", toString (4 + c.length)), ("tr", toString (trailerOfMap m))] ++
+  (getterExpectations m).map (fun e => (e.1, e.2.2))
+
+def checkLine (F : Frame) (m : FMap) (out : String) : String :=
   let ow := words out
   if out.startsWith "throw" then s!"violates no-throw {out}" else
-  match (expectations m).find? (fun e => kv ow e.1 != some e.2) with
-  | none => "ok"
+  match (expectations F m).find? (fun e => kv ow e.1 != some e.2) with
   | some e => s!"violates {e.1} expected={e.2} got={(kv ow e.1).getD "missing"}"
+  | none =>
+    let pr := ((kv ow "pr").getD "x").toNat?
+    let dom := presentWord (fieldList S m)
+    match pr with
+    | some w =>
+      if F == Frame.nil then (if w == dom then "ok" else s!"violates pr expected={dom} got={w}")
+      else if w % 2 ^ S.max == dom then "ok" else s!"violates pr-table-bits expected={dom} got={w}"
+    | none => "violates pr expected=a-number"
 
+/-- state line of a header whose last present word announces table fields (the bytes after the first word's fields
+    are fields to libtins, foreign to the setters): the fields of the first word must be laid out as the last-write map
+    says and read back, the present-word chain must be unchanged; last clause: the foreign bytes are unchanged -/
+def checkLive (F : Frame) (m : FMap) (out : String) : String :=
+  let ow := words out
+  if out.startsWith "throw" then s!"violates no-throw {out}" else
+  match (kv ow "pl").bind parseHex with
+  | none => "violates pl expected=hex"
+  | some pl =>
+    match decodeLayout S pl with
+    | none => "violates first-namespace-layout not-well-aligned"
+    | some (F', fs') =>
+      if fs' != fieldList S m then s!"violates first-namespace-fields got={toHex pl}"
+      else if F'.hb != F.hb || F'.wsb != F.wsb then "violates present-word-chain"
+      else if kv ow "hs" != some (toString (4 + pl.length)) then "violates hs"
+      else
+        match (getterExpectations m).find? (fun e => (m e.2.1).isSome && kv ow e.1 != some e.2.2) with
+        | some e => s!"violates {e.1} expected={e.2.2} got={(kv ow e.1).getD "missing"}"
+        | none =>
+          if (m 1).isSome && kv ow "tr" != some (toString (trailerOfMap m)) then "violates tr"
+          else if F'.tail != F.tail then s!"violates later-namespace-bytes expected={toHex F.tail} got={toHex F'.tail}"
+          else "ok"
+
+/-- `ser` in a state whose last-write map is known and whose frame is inert -/
 def checkSer (o : OState) (m : FMap) (inner : Bytes) (out : String) : String :=
   let ow := words out
   if out.startsWith "throw" then s!"violates no-throw {out}" else
-  let c := canonical S m
+  let c := layL S o.frame (fieldList S m)
   let hs := 4 + c.length
   let fcsOn := match m 1 with
     | some v => byteAt v 0 / 16 % 2 == 1
@@ -226,6 +272,29 @@ def checkSer (o : OState) (m : FMap) (inner : Bytes) (out : String) : String :=
   else if kv ow "re" != some (toHex c) then s!"violates ser-reparse-fields got={(kv ow "re").getD "missing"}"
   else if kv ow "reinner" != some "same" then "violates ser-reparse-inner"
   else "ok"
+
+/-- `ser` in any state (clauses of `serialize_any`): the header is version, pad, a length field covering exactly the
+    fixed part and the payload the object reported last, then that payload; a trailer is 0 or 4 bytes; re-parsing gives
+    the same payload (or the frame is one libtins refuses: FCS + FAILED_FCS, fewer than 4 bytes after the header) -/
+def checkSerAny (o : OState) (pl : Bytes) (inner : Bytes) (out : String) : String :=
+  let ow := words out
+  if out.startsWith "throw" then "unspecified" else
+  let hs := 4 + pl.length
+  match (kv ow "hdr").bind parseHex, ((kv ow "n").getD "x").toNat? with
+  | some hdr, some n =>
+    if hdr.drop 4 != pl then s!"violates ser-header-payload"
+    else if byteAt hdr 2 + 256 * byteAt hdr 3 != hs % 65536 then "violates ser-length-covers"
+    else if byteAt hdr 0 != o.version || byteAt hdr 1 != o.pad then "violates ser-version-pad"
+    else if n != hs + inner.length && n != hs + inner.length + 4 then "violates ser-size"
+    else if kv ow "body" != some "inner" then "violates ser-inner-bytes"
+    else if n == hs + inner.length + 4 && !inner.isEmpty && kv ow "fcs" != some "ok" then "violates ser-fcs"
+    else if hs ≥ 65536 then "ok"
+    else
+      let re := (kv ow "re").getD ""
+      if re == toHex pl then (if inner.isEmpty || kv ow "reinner" == some "same" then "ok" else "violates ser-reparse-inner")
+      else if re == "!malformed_packet" then "ok"
+      else s!"violates ser-reparse-payload got={re}"
+  | _, _ => "violates ser-format"
 
 /-! #### oracle of the raw parser ops (`walk`, `skipto`): what may be reported, by the radiotap standard -/
 
@@ -352,6 +421,9 @@ def checkSkipto (bit : Nat) (buf : Bytes) (out : String) : String :=
         then "ok" else s!"violates skip_to_field expected={t}"
       | none => "bad-oracle"
 
+def plOf (out : String) : Option Bytes :=
+  if out.startsWith "throw" || out.startsWith "FAULT" then none else (kv (words out) "pl").bind parseHex
+
 /-- spec mode: each input line is `<op> ||| <implementation output>` -/
 def specStep (st : OState) (line : String) : OState × String :=
   match line.trimAscii.toString.splitOn " ||| " with
@@ -365,43 +437,67 @@ def specStep (st : OState) (line : String) : OState × String :=
       | _, _ => (st, "unspecified")
     | ["tail"] => (st, "ok")
     | ["new"] =>
-      let st' : OState := { ws := some defaultWrites }
-      (st', checkLine (lastWrite FMap.empty defaultWrites) out)
+      let st' : OState := { ws := some defaultWrites, pl := plOf out }
+      (st', checkLine Frame.nil (lastWrite FMap.empty defaultWrites) out)
     | ["parse", h] =>
       match parseHex h with
       | some b =>
         let len := byteAt b 2 + 256 * byteAt b 3
-        let fs := if b.length ≥ 8 && len == b.length then decodeCanonical S (b.drop 4) else none
-        match fs with
-        | some fs =>
+        let dec := if b.length ≥ 8 && len == b.length then decodeLayout S (b.drop 4) else none
+        let bare : OState := { ws := none, version := byteAt b 0, pad := byteAt b 1, pl := plOf out }
+        match dec with
+        | some (F, fs) =>
           let m := mapOfList fs
           let refused := match m 1 with
             | some v => byteAt v 0 / 16 % 2 == 1 && byteAt v 0 / 64 % 2 == 1
             | none => false
-          if refused then ({ ws := none }, "unspecified")
-          else ({ ws := some fs, version := byteAt b 0, pad := byteAt b 1 }, checkLine m out)
-        | none => ({ ws := none }, "unspecified")
+          if refused then (bare, "unspecified")
+          else
+            let live := !decide (F.inert S)
+            ({ bare with ws := some fs, frame := F, live := live }, if live then checkLive F m out else checkLine F m out)
+        | none => (if out.startsWith "throw" then { bare with pl := none } else bare, "unspecified")
       | none => ({ ws := none }, "unspecified")
     | ["set", f, h] =>
       match st.ws, stdBit f, parseHex h with
       | some ws, some b, some v =>
         if decide (validWrite S (b, v)) then
           let ws' := ws ++ [(b, v)]
-          ({ st with ws := some ws' }, checkLine (lastWrite FMap.empty ws') out)
-        else ({ st with ws := none }, "unspecified")
-      | _, _, _ => ({ st with ws := none }, "unspecified")
+          let m := lastWrite FMap.empty ws'
+          let st' := { st with ws := some ws', pl := plOf out }
+          if st.live then
+            let r := checkLive st.frame m out
+            -- the foreign bytes the next call starts from are the ones the object holds now
+            let F' := match (plOf out).bind (decodeLayout S) with
+              | some (F2, _) => { st.frame with tail := F2.tail }
+              | none => st.frame
+            ({ st' with frame := F' }, r)
+          else (st', checkLine st.frame m out)
+        else ({ st with ws := none, pl := plOf out }, "unspecified")
+      | _, _, _ => ({ st with ws := none, pl := plOf out }, "unspecified")
     | ["add", n, h] =>
       match st.ws, n.toNat?, parseHex h with
       | some ws, some b, some v =>
         if decide (validWrite S (b, v)) then
           let ws' := ws ++ [(b, v)]
-          ({ st with ws := some ws' }, checkLine (lastWrite FMap.empty ws') out)
-        else ({ st with ws := none }, "unspecified")
-      | _, _, _ => ({ st with ws := none }, "unspecified")
+          let m := lastWrite FMap.empty ws'
+          let st' := { st with ws := some ws', pl := plOf out }
+          if st.live then
+            let r := checkLive st.frame m out
+            let F' := match (plOf out).bind (decodeLayout S) with
+              | some (F2, _) => { st.frame with tail := F2.tail }
+              | none => st.frame
+            ({ st' with frame := F' }, r)
+          else (st', checkLine st.frame m out)
+        else ({ st with ws := none, pl := if out.startsWith "throw" then st.pl else plOf out }, "unspecified")
+      | _, _, _ => ({ st with ws := none, pl := if out.startsWith "throw" then st.pl else plOf out }, "unspecified")
     | ["ser", h] =>
-      match st.ws, parseHex h with
-      | some ws, some inner => (st, checkSer st (lastWrite FMap.empty ws) inner out)
-      | _, _ => (st, "unspecified")
+      match parseHex h with
+      | some inner =>
+        match st.ws, st.live, st.pl with
+        | some ws, false, _ => (st, checkSer st (lastWrite FMap.empty ws) inner out)
+        | _, _, some pl => (st, checkSerAny st pl inner out)
+        | _, _, none => (st, "unspecified")
+      | none => (st, "unspecified")
     | _ => ({ st with ws := none }, "unspecified")
   | _ => (st, "bad-line")
 
